@@ -86,6 +86,20 @@ class Ctx:
 
     def cleanup(self):
         shutil.rmtree(self.scratch, ignore_errors=True)
+        if getattr(self, "shm", None):
+            shutil.rmtree(self.shm, ignore_errors=True)
+
+    def harness_tmp(self):
+        """Temp dir for harness processes: RAM-backed when available (Badger stores of the harnesses
+        are opened with SyncWrites; crash points are simulated in-process, so no real fsync is needed)."""
+        if getattr(self, "shm", None) is None:
+            self.shm = ""
+            if os.path.isdir("/dev/shm") and os.access("/dev/shm", os.W_OK):
+                try:
+                    self.shm = tempfile.mkdtemp(prefix="verif-%s-" % self.pid, dir="/dev/shm")
+                except OSError:
+                    self.shm = ""
+        return self.shm or self.scratch
 
     def specdir(self, *mods):
         """Scratch copy of spec/lib + the named spec directories; TLC runs there."""
@@ -197,6 +211,7 @@ class Ctx:
         e = goenv()
         e["VERIF_SEED"] = str(self.seed)
         e["VERIF_TIER"] = self.tier
+        e["TMPDIR"] = self.harness_tmp()
         if env:
             e.update({k: str(v) for k, v in env.items()})
         exclude = set()
@@ -234,6 +249,67 @@ class Ctx:
             # the harness itself never fails on property grounds: verdicts come from TLC.
             raise Infra("harness %s %s exited %d:\n%s" % (pkg, run, p.returncode, out[-4000:]))
         return out
+
+    def go_harness_sharded(self, pkg, run, shards, env=None, timeout=1500, trace_prefix=None):
+        """Compile the in-package harness once (go test -c) and run it as `shards` parallel
+        processes (VERIF_SHARD=i, VERIF_SHARDS=n, VERIF_TRACE=<prefix>.<i>). Returns the list of
+        trace files. Same build-robustness rule as go_harness."""
+        e = goenv()
+        e["VERIF_SEED"] = str(self.seed)
+        e["VERIF_TIER"] = self.tier
+        e["TMPDIR"] = self.harness_tmp()
+        if env:
+            e.update({k: str(v) for k, v in env.items()})
+        exclude = set()
+        binp = os.path.join(self.scratch, "harness_%s.test" % pkg)
+        for attempt in range(8):
+            ov = write_overlay(os.path.join(self.scratch, "overlay.json"), exclude=exclude)
+            cmd = [GO, "test", "-tags", "verif", "-overlay", ov, "-vet=off", "-c", "-o", binp, "./" + pkg]
+            p = subprocess.run(cmd, cwd=REPO, env=e, stdout=subprocess.PIPE, stderr=subprocess.STDOUT,
+                               timeout=900, text=True, errors="replace")
+            out = p.stdout
+            if p.returncode != 0:
+                bad = set(re.findall(r"(zz_verif_\w+_test\.go):\d+", out)) - {"zz_verif_vtrace_test.go"}
+                mine = set()
+                tname = run.strip("^$")
+                hd = os.path.join(VERIF, "harness", "inpkg", pkg)
+                for f in os.listdir(hd):
+                    if f.endswith(".go") and re.search(r"func %s\b" % re.escape(tname), open(os.path.join(hd, f)).read()):
+                        mine.add(f)
+                new = bad - exclude - mine
+                if new and not (bad & mine):
+                    exclude |= new
+                    self.notes.append("harness files left out of the build (do not compile): %s" % sorted(new))
+                    continue
+                raise Infra("harness does not build against the current tree (%s %s):\n%s" % (pkg, run, out[-3000:]))
+            break
+        self.checker_cmds.append("%s test -tags verif -overlay overlay.json -c ./%s ; %d x harness.test -test.run %s" % (GO, pkg, shards, run))
+        prefix = trace_prefix or os.path.join(self.scratch, "trace_%s" % pkg)
+        procs = []
+        for i in range(shards):
+            ee = dict(e)
+            ee.update({"VERIF_SHARD": str(i), "VERIF_SHARDS": str(shards), "VERIF_TRACE": "%s.%d" % (prefix, i)})
+            procs.append(subprocess.Popen([binp, "-test.run", run, "-test.count=1", "-test.timeout", "%ds" % timeout],
+                                          cwd=os.path.join(REPO, pkg), env=ee, stdout=subprocess.PIPE,
+                                          stderr=subprocess.STDOUT, text=True, errors="replace"))
+        files = []
+        for i, pr in enumerate(procs):
+            try:
+                out, _ = pr.communicate(timeout=timeout + 60)
+            except subprocess.TimeoutExpired:
+                for q in procs:
+                    q.kill()
+                raise Infra("go harness shard timeout %s %s" % (pkg, run))
+            if pr.returncode != 0:
+                for q in procs:
+                    q.kill()
+                raise Infra("harness %s %s shard %d exited %d:\n%s" % (pkg, run, i, pr.returncode, out[-4000:]))
+            files.append("%s.%d" % (prefix, i))
+        try:
+            os.remove(binp)
+        except OSError:
+            pass
+        return files
 
     # ------------------------------------------------------------------ verdict helpers
     def violation(self, what, replay_obj):
